@@ -105,6 +105,8 @@ def ident(x):
         return ("s",) + tuple(sorted([repr(ident(e)) for e in x]))
     if isinstance(x, BaseException):
         return ("exc", t.__name__, getattr(x, "tag", None))
+    if t is DataAwaitable:
+        return ("data_awaitable", x.name)
     return ("o", t.__name__)
 
 
@@ -185,9 +187,12 @@ LOGGING_FLAVOURS = ("getitem", "sync_iter") + ASYNC_FLAVOURS
 
 
 class SrcPlan:
-    __slots__ = ("name", "items", "flavour", "suspend", "aclose_suspends", "fresh")
+    __slots__ = ("name", "items", "flavour", "suspend", "aclose_suspends", "fresh", "aclose_mode")
 
-    def __init__(self, name, items, flavour="list", suspend=(), aclose_suspends=0, fresh=False):
+    def __init__(self, name, items, flavour="list", suspend=(), aclose_suspends=0, fresh=False, aclose_mode=0):
+        # 0: coroutine returning None   1: coroutine returning a truthy value
+        # 2: plain method returning a hand-written awaitable (closing happens when that is awaited)
+        self.aclose_mode = aclose_mode
         self.fresh = fresh  # instantiate private copies of the items and track them by weakref
         self.name = name
         self.items = items
@@ -202,6 +207,7 @@ class SrcPlan:
             "flavour": self.flavour,
             "suspend": list(self.suspend),
             "aclose_suspends": self.aclose_suspends,
+            "aclose_mode": self.aclose_mode,
         }
 
 
@@ -427,13 +433,41 @@ class AIterCls:
             raise StopAsyncIteration
         return got
 
-    async def aclose(self):
+    async def _do_aclose(self):
         src = self.src
         src.n_aclose += 1
         src.world.log.append(("aclose", src.name))
         for _ in range(src.plan.aclose_suspends):
             await src.world.sim.suspend(PAUSE, None, src.name)
         src.closed = True
+        return True if src.plan.aclose_mode == 1 else None
+
+    def aclose(self):
+        if self.src.plan.aclose_mode == 2:
+            return _AwaitableClose(self._do_aclose())
+        return self._do_aclose()
+
+
+class _AwaitableClose:
+    """What a plain ``def aclose`` may return: an awaitable that is not a coroutine"""
+
+    __slots__ = ("coro", "started")
+
+    def __init__(self, coro):
+        self.coro = coro
+        self.started = False
+
+    def __await__(self):
+        self.started = True
+        return (yield from self.coro.__await__())
+
+    def __del__(self):
+        # never awaited: do not let the inner coroutine complain on top of the real finding
+        if not self.started:
+            try:
+                self.coro.close()
+            except Exception:  # pragma: no cover
+                pass
 
 
 class AIterNoClose:
@@ -532,7 +566,7 @@ def make_ref_source(world, plan, as_container=False):
 
 
 # --------------------------------------------------------------------------- callables
-FN_FLAVOURS = ("def", "async", "partial_async", "obj_coro", "obj_awaitable")
+FN_FLAVOURS = ("def", "async", "partial_async", "obj_coro", "obj_awaitable", "obj_falsy", "cls_awaitable", "obj_future")
 
 
 class FnPlan:
@@ -563,6 +597,13 @@ def _behave(kind, param, args, feed):
         return keyof(args[0])
     if kind == "div":
         return keyof(args[0]) // (param + 2)
+    if kind == "uidkey":
+        # equal items need not have equal keys: the key looks at what distinguishes them
+        x = args[0]
+        uid = getattr(x, "uid", 0)
+        if type(uid) is tuple:
+            uid = uid[1] if len(uid) == 2 and type(uid[1]) is int else 0
+        return (uid if type(uid) is int else 0) % 3
     if kind == "divnone":
         return (keyof(args[0]) // (param + 2)) or None
     if kind == "neg":
@@ -600,6 +641,24 @@ class _HandAwaitable:
         for _ in range(self.n):
             yield from fn.world.sim.suspend(PAUSE, None, fn.name).__await__()
         return fn._result(self.args)
+
+
+class DataAwaitable:
+    """
+    An awaitable handed out as a *value* by a synchronous callable (a job handle, a future to pass on).
+    Nobody is supposed to await it on the caller's behalf; if somebody does, it says so and suspends.
+    """
+
+    __slots__ = ("world", "name")
+
+    def __init__(self, world, name):
+        self.world = world
+        self.name = name
+
+    def __await__(self):
+        self.world.log.append(("data_awaited", self.name))
+        yield self
+        return ("awaited-data", self.name)
 
 
 class Fn:
@@ -642,6 +701,10 @@ class Fn:
             self.failed = True
             world.log.append(("craise", self.name, k))
             raise world.fault_exc
+        if self.plan.kind == "combine_data":
+            if k >= 1 and k % 2 == 1:
+                return DataAwaitable(world, self.name)
+            return _behave("combine", self.plan.param, args, self.feed)
         return _behave(self.plan.kind, self.plan.param, args, self.feed)
 
     # -- flavours --------------------------------------------------------------------
@@ -661,6 +724,10 @@ class Fn:
         k = self._enter(args)
         return _HandAwaitable(self, args, self._nsusp(k))
 
+    def future_call(self, *args):
+        k = self._enter(args)
+        return _FutureLike(self, args, self._nsusp(k))
+
 
 class _CallableObj:
     __slots__ = ("call",)
@@ -670,6 +737,45 @@ class _CallableObj:
 
     def __call__(self, *args):
         return self.call(*args)
+
+
+class _FalsyCallable(_CallableObj):
+    """A callable object that is falsy (think: a dict subclass with __call__ and no entries)"""
+
+    __slots__ = ()
+
+    def __bool__(self):
+        return False
+
+    def __len__(self):
+        return 0
+
+
+class _FutureLike(_HandAwaitable):
+    """Awaitable that is also iterable, like asyncio.Future (``__iter__ = __await__``)"""
+
+    __slots__ = ()
+
+    def __iter__(self):
+        return self.__await__()
+
+
+def _awaitable_class(fn):
+    """A *class* used as the callable: calling it builds an awaitable instance"""
+
+    class AwaitableCall:
+        __slots__ = ("args", "k")
+
+        def __init__(self, *args):
+            self.args = args
+            self.k = fn._enter(args)
+
+        def __await__(self):
+            for _ in range(fn._nsusp(self.k)):
+                yield from fn.world.sim.suspend(PAUSE, None, fn.name).__await__()
+            return fn._result(self.args, self.k)
+
+    return AwaitableCall
 
 
 def make_async_fn(world, plan):
@@ -700,6 +806,12 @@ def make_async_fn(world, plan):
         fn.obj = _CallableObj(fn.async_call)
     elif fl == "obj_awaitable":
         fn.obj = _CallableObj(fn.awaitable_call)
+    elif fl == "obj_falsy":
+        fn.obj = _FalsyCallable(fn.async_call)
+    elif fl == "cls_awaitable":
+        fn.obj = _awaitable_class(fn)
+    elif fl == "obj_future":
+        fn.obj = _CallableObj(fn.future_call)
     else:  # pragma: no cover
         raise ValueError(fl)
     return fn
